@@ -26,7 +26,7 @@ def main():
         d = json.load(open(a.replay))
         hs = [h for h in REGISTRY[d['property']]['harnesses']() if h.name == d['harness']]
         h = hs[0]
-        nat = driver.NATIVE.run(h.kernel, [dict(case=d['case'], inputs=h.native_inputs(d['case'], d['inputs']))])[0]
+        nat = driver.native_run(h, [dict(case=d['case'], inputs=d.get('native_inputs') or driver.nat_inputs(h, d['case'], d['inputs'], d.get('predicted')))])[0]
         bad = h.is_violation(d['case'], d['inputs'], nat)
         print('replay %s: inputs=%s native=%s expected=%s -> %s' % (a.replay, json.dumps(d['inputs']), json.dumps(nat),
                                                                       json.dumps(h.oracle(d['case'], d['inputs'])),
